@@ -33,11 +33,19 @@ ZUseOK(z) == z.tab = 2                         \* "every use sees a complete tab
 (* (b) The row cache of ProjMatrixByBin: one map per (view, segment), each *)
 (* guarded by its own lock; find and insert happen inside the lock, the    *)
 (* row is computed outside it, std::map::insert does nothing if the key is *)
-(* present.  A cache is the set of keys present.                           *)
+(* present.                                                                *)
+(* The call-outs do not say WHICH matrix object they come from; a run       *)
+(* declares how many cached matrices it can reach (nm; 1 for all workloads  *)
+(* except the objective functions on TOF data, which clone the back         *)
+(* projector - and its matrix - for the sensitivity).  cnt = number of      *)
+(* effective inserts of the key so far, over all nm objects:                *)
+(*   a hit needs an earlier insert; a miss is impossible once all nm maps   *)
+(*   hold the key ("nothing lost"); an insert that finds the key absent is  *)
+(*   possible at most once per object ("one effective insert per key").     *)
+(* For nm = 1 this is the exact content of the one map.                     *)
 (***************************************************************************)
-CacheFound(cache, k) == k \in cache
-CacheCount(cache, k) == IF k \in cache THEN 1 ELSE 0
-CacheInsert(cache, k) == cache \cup {k}
+CacheLookupOK(cnt, found, nm) == IF found = 1 THEN cnt >= 1 ELSE cnt < nm
+CacheInsertOK(cnt, present, nm) == IF present = 1 THEN cnt >= 1 ELSE cnt < nm
 
 (***************************************************************************)
 (* (c) Per-thread accumulators reduced after the join: the reduction loop  *)
